@@ -35,7 +35,7 @@ CLASSES = effects.Classes({
     + [("tracker::ListenSlot", None)],
     "monitor": [("monitor::State", None), ("monitor::ClosingOutpoints", None)],
     "channels": [("node::Node", "channels")],
-})
+}, by_type={"channels": lambda ty: "Map<" in ty and "ChannelSlot" in ty})
 
 
 def is_persist(n):
@@ -169,7 +169,7 @@ def r102(ctx):
     for r in fv.return_sites():
         if r["kind"] != "err":
             continue
-        ok = fv.must_pass(r["block"], empty_edges | enter_err) and bool(empty_edges)
+        ok = fv.must_pass(R.site_block(r), empty_edges | enter_err) and bool(empty_edges)
         ctx.ob("R10.2", ok, f"{b.name}/err-needs-empty-muts",
                "with_persist can return an error while the transactional store has pending mutations",
                where=f"{b.file}:{r['line']}", sample="Err return dominated by muts.is_empty() == true (or failed enter)")
@@ -232,7 +232,8 @@ def _short_fn(name):
 def r104(ctx):
     ctx.rule("R10.4", "protocol layer: no state-changing core call is followed by a refusal of the same request "
                       "(other than the call's own failure, which the callee's own rule instance covers)")
-    eff = effects.Effects(ctx, CLASSES)
+    # here a persister write anywhere below a call counts as a change too (class "store")
+    eff = effects.Effects(ctx, CLASSES, store_calls=lambda n: is_persist(n) and not any(x in n for x in PERSIST_READS))
     bodies = [b for b in ctx.prog.bodies.values() if b.d.krate == "vls_protocol_signer" and not R.is_test_util(b.name)]
     nsites = 0
     nfn = 0
